@@ -242,4 +242,20 @@ PROPS = {
             "math.Log / math.Pow are taken to be the real functions within tolerance",
         ],
     },
+    "C08": {
+        "harness": [{"cmd": "c08", "n": {"quick": 600, "thorough": 20000}, "extra": ["-per", "100"]}],
+        "rule": "the alignments and option sets of C07, each followed by one relation between two real calls of "
+                "dna.DistMatrix: column permutation (SelectSites-like re-ordering with the weights), replication of "
+                "every column 2-3 times, integer weight k instead, explicit unit weights (bit-identical), reverse "
+                "complement of the whole alignment, row permutation (matrix permuted accordingly), 2/3/8/16/32 workers "
+                "against 1 (bit-identical), and a caller-supplied model whose k-th evaluation fails with 1/2/8 workers "
+                "under a 3 s watchdog (the call must return, with the error); the internal-gap counting mode is exempt "
+                "from the column relations; non-trivial = every case; distinct = distinct (relation, options, alignment)",
+        "nontrivial": lambda m: True,
+        "assumptions": [
+            "a schedule is modelled as the order in which the produced pairs are processed; atomicity of a cell write "
+            "and of the mutex section is assumed; the Go memory model / race detector are outside the model",
+            "'up to rounding' = 1e-9 relative; bit-identity is checked exactly for thread counts and unit weights",
+        ],
+    },
 }
